@@ -431,7 +431,8 @@ def Header.maxDim (h : Header) : Nat := max (max h.width h.height) (h.depth.getD
 
 /-- The layout length of a header for a given pixel info: `DataLayout::from_header_with(..)
 .map(|l| l.data_len())`, `none` for a layout error.  (A panic inside would also give `none`;
-`Proofs/Header.lean: layoutLen_no_panic` shows there is none for in-range headers.) -/
+`Proofs/HeaderLayout.lean: Header.layoutLen_no_panic` (= `C18.repair_no_panic`) shows there is
+none for well-formed headers and pixel infos.) -/
 def Header.layoutLen (px : PixelInfo) (h : Header) : Option Nat :=
   match layoutOf h.toLayoutHeader px with
   | some (.ok L) => L.dataLenP
